@@ -1,8 +1,9 @@
 (* C10 -- non-vacuity: concrete inputs meet the hypotheses of the theorems of Props.v. *)
 From Coq Require Import List Arith Bool ZArith Lia Ring QArith Qcanon Sorted.
 From Coq Require Import setoid_ring.InitialRing.
-From Verif.lib Require Import Slice.
-From Verif.C10 Require Import Model Proofs Props.
+From Verif.lib Require Import Slice Bsp.
+From Verif.C14 Require Model.
+From Verif.C10 Require Import Model Model_ic Proofs Proofs_ic Proofs_mp Props.
 Import ListNotations.
 
 (* the ring hypothesis is inhabited by Z and by the rationals *)
@@ -89,6 +90,52 @@ Example ex_valid_mi : valid_mi [3; 4] [2; 1] /\ nth 0 [2; 1] 0 = 2 /\ ravel [3; 
 Proof. repeat split; repeat constructor. Qed.
 Example ex_slice_hyp : 0 < length [3; 4] /\ 2 < nth 0 [3; 4] 0.
 Proof. simpl. lia. Qed.
-Example ex_solve2 : (~ 1 * 6 - 0 * (- (6)) == 0)%Q /\
-  (let a := solve2 1 0 (- (6)) 6 (3 # 2) 3 in fst a == 3 # 2 /\ snd a == 2)%Q.
-Proof. split; [discriminate|]. vm_compute. split; reflexivity. Qed.
+
+(* ---- initial conditions: a quadratic open knot vector on the time interval [2, 3] ---- *)
+Definition qq (n : Z) (dd : positive) : Qc := Q2Qc (n # dd).
+Definition ex_tkv : list Qc := [qq 2 1; qq 2 1; qq 2 1; qq 5 2; qq 3 1; qq 3 1; qq 3 1].
+Example ex_ic_hyp : open_kv ex_tkv 2 = true /\ 1 <= 2.
+Proof. split; [vm_compute; reflexivity|lia]. Qed.
+(* c = p/(t_3 - t_0) = 2/(1/2) = 4 on both ends; g0 = 3/2, g1 = 4 *)
+Example ex_ic_matrix :
+  (let '(a, b, c, dd) := ic_bdcolloc ex_tkv 2 0 in map this [a; b; c; dd]) = [1; 0; -4 # 1; 4 # 1]%Q /\
+  (let '(a, b, c, dd) := ic_bdcolloc ex_tkv 2 1 in map this [a; b; c; dd]) = [0; 1; -4 # 1; 4 # 1]%Q.
+Proof. vm_compute. split; reflexivity. Qed.
+Example ex_ic_coeffs :
+  (let '(a, b) := ic_coeffs ex_tkv 2 0 (qq 3 2) (qq 4 1) in map this [a; b]) = [3 # 2; 5 # 2]%Q /\
+  (let '(a, b) := ic_coeffs ex_tkv 2 1 (qq 3 2) (qq 4 1) in map this [a; b]) = [1 # 2; 3 # 2]%Q.
+Proof. vm_compute. split; reflexivity. Qed.
+(* a coefficient vector meeting the hypothesis of initial_condition_01_reproduces (numdofs = 4) *)
+Example ex_ic_coef : let coef := [qq 3 2; qq 5 2; qq 7 1; qq (-1) 3] in
+  numdofs ex_tkv 2 = 4 /\ nth 0 coef 0%Qc = fst (ic_coeffs ex_tkv 2 0 (qq 3 2) (qq 4 1))
+  /\ nth 1 coef 0%Qc = snd (ic_coeffs ex_tkv 2 0 (qq 3 2) (qq 4 1)).
+Proof. split; [reflexivity|]. split; apply Qc_is_canon; vm_compute; reflexivity. Qed.
+
+(* ---- multipatch: two 2x2-dof patches glued along one edge; patch 0 re-appears after patch 1 ---- *)
+Definition ex_mp_st := C14.Model.run [[2; 2]; [2; 2]] [C14.Model.mk_bjoin 0 1 1 1 1 0 [false]].
+Definition ex_mp_Ns := [4; 4].
+Definition ex_mp_conds : list (mp_cond Z) :=
+  [(0, [1; 3], [10; 30]%Z); (1, [0; 1], [40; 50]%Z); (0, [0; 1], [60; 70]%Z)].
+Example ex_mp_valid : Forall (cond_valid Z ex_mp_Ns) ex_mp_conds.
+Proof.
+  unfold ex_mp_conds.
+  repeat (apply Forall_cons; [split; [simpl; intros i Hi; intuition lia|reflexivity]|]). apply Forall_nil.
+Qed.
+Example ex_mp_result :
+  C14.Model.patch_to_global_idx ex_mp_st ex_mp_Ns 0 = [0; 4; 1; 5] /\
+  C14.Model.patch_to_global_idx ex_mp_st ex_mp_Ns 1 = [4; 2; 5; 3] /\
+  mp_compute_dirichlet_bcs Z 0%Z (C14.Model.patch_to_global_idx ex_mp_st ex_mp_Ns) ex_mp_conds
+  = ([0; 2; 4; 5], [60; 50; 10; 30]%Z).
+Proof. vm_compute. repeat split; reflexivity. Qed.
+
+(* ---- faces ---- *)
+Example ex_face_hyp : parse_bdspec (BName BTop) (length [3; 4]) = Some (0, 1) /\ 0 < nth 0 [3; 4] 0.
+Proof. split; [vm_compute; reflexivity|simpl; lia]. Qed.
+Example ex_cells : boundary_cells [2; 3] (BName BLeft) = Some [0; 3] /\ boundary_dofs [3; 4] (BName BTop) [true] = Some [11; 10; 9; 8].
+Proof. vm_compute. split; reflexivity. Qed.
+Example ex_on_face : on_face [3; 4] 0 1 [2; 1].
+Proof. split; [repeat constructor|reflexivity]. Qed.
+Example ex_all_once : Forall (fun n => 0 < n) [3; 3] /\
+  dirichlet_bcs_all_indices [3; 3] 0 = Some [0; 1; 2; 3; 5; 6; 7; 8] /\
+  dirichlet_bcs_all_indices [2; 2] 2 = Some [0; 1; 2; 3; 4; 5; 6; 7].
+Proof. split; [repeat constructor|]. vm_compute. split; reflexivity. Qed.
